@@ -38,6 +38,14 @@ import Driver.Util
       answer:  <ok|err> E <st after silk_encode_indices + silk_encode_pulses> D <st after ec_enc_done> B <hex size+16>
                X <ix decoded by C03's model from the bytes> P <pulses decoded, iter*16 values> Y <decoder st>  (X - P - Y - on err)
 
+    rangecoder spacket <size> <fs_kHz> <nCh> <nfpp> <nb_subfr> <flags> <records>
+        (harness/c08_silkpacket.c: what the real silk_Encode decided to write, recorded by wrappers, in semantic form)
+        records  `;`-separated:  L<n>.<i>=<ix>:<pulses> / F<n>.<i>=<ix>:<pulses>  LBRR / regular frame i of channel n
+                                 Q<i>=<a/b/c/d/e/f> / P<i>=…   predictor coded with LBRR / regular frame i
+                                 N<i>=<v> / M<i>=<v>           mid-only flag coded with LBRR / regular frame i
+      answer:  <ok|err> D <st after ec_enc_done> B <hex: size bytes> R ok   (OpusModel.SilkSymsEnc.packetOps on a zeroed buffer;
+               `R` is the harness's model-free round trip through the real silk_Decode, which the theorem says is `ok`)
+
     rangecoder tf <l> <rlo> <n> <low> <nbits>
         ec_tell / ec_tell_frac for rng = (r << (l-16)) + (low ? 2^(l-16)-1 : 0), r = rlo..rlo+n-1,
         nbits_total = nbits;   answer: `,`-separated `tell:tell_frac`
@@ -183,7 +191,69 @@ def runSframe (size fill : Nat) (rate : SilkSyms.Rate) (nb lbrr cc prevSig : Nat
       head ++ s!" X {ixStr ix'} P {intList pu.pulses} Y {stStr d2}"
   | r => faultStr r
 
+/-- Build the payload writer's input from the harness record. -/
+def parsePacket (nCh nfpp flags : Nat) (recs : List String) : Option SilkSymsEnc.PacketIn := do
+  let k := (nfpp + 1) * nCh
+  let bit (j : Nat) : Nat := flags / 2 ^ (k - 1 - j) % 2
+  let mut l0 : List (Nat × SilkSymsEnc.FrameIn) := []
+  let mut l1 : List (Nat × SilkSymsEnc.FrameIn) := []
+  let mut f0 : List (Nat × SilkSymsEnc.FrameIn) := []
+  let mut f1 : List (Nat × SilkSymsEnc.FrameIn) := []
+  let mut pr : List (Nat × List Nat) := []
+  let mut qr : List (Nat × List Nat) := []
+  let mut mr : List (Nat × Nat) := []
+  let mut nr : List (Nat × Nat) := []
+  for r in recs do
+    match r.splitOn "=" with
+    | [key, val] =>
+      let kind : String := (key.take 1).toString
+      let idx : String := (key.drop 1).toString
+      if kind = "L" ∨ kind = "F" then
+        match idx.splitOn ".", val.splitOn ":" with
+        | [n, i], [ixs, pus] =>
+          let n ← parseNat n
+          let i ← parseNat i
+          let ix ← parseIx ixs
+          let pu ← parseIntList pus
+          let fr : SilkSymsEnc.FrameIn := { ix := ix, pulses := pu }
+          if kind = "L" then
+            if n = 0 then l0 := (i, fr) :: l0 else l1 := (i, fr) :: l1
+          else
+            if n = 0 then f0 := (i, fr) :: f0 else f1 := (i, fr) :: f1
+        | _, _ => none
+      else if kind = "P" ∨ kind = "Q" then
+        let i ← parseNat idx
+        let v ← parseSlash val
+        if kind = "P" then pr := (i, v.map Int.toNat) :: pr else qr := (i, v.map Int.toNat) :: qr
+      else if kind = "M" ∨ kind = "N" then
+        let i ← parseNat idx
+        let v ← parseNat val
+        if kind = "M" then mr := (i, v) :: mr else nr := (i, v) :: nr
+      else none
+    | _ => none
+  let look {α} [Inhabited α] (l : List (Nat × α)) (i : Nat) : α := ((l.find? (fun p => p.1 = i)).map (·.2)).getD default
+  let has {α} (l : List (Nat × α)) (i : Nat) : Nat := if (l.find? (fun p => p.1 = i)).isSome then 1 else 0
+  let rng := List.range nfpp
+  let ch0 : SilkSymsEnc.ChanIn := { vad := rng.map bit, lbrrFlags := rng.map (has l0), lbrr := rng.map (look l0), frames := rng.map (look f0), prev := {} }
+  let ch1 : SilkSymsEnc.ChanIn := { vad := rng.map (fun i => bit (nfpp + 1 + i)), lbrrFlags := rng.map (has l1), lbrr := rng.map (look l1), frames := rng.map (look f1), prev := {} }
+  -- a side frame that was not coded (no F1.i record) means the mid-only flag was set, whether or not it was coded
+  let mid := rng.map (fun i => if nCh = 2 ∧ has f1 i = 0 then 1 else look mr i)
+  pure { ch0 := ch0, ch1 := ch1, predIx := rng.map (look pr), midOnly := mid, lbrrPredIx := rng.map (look qr), lbrrMidOnly := rng.map (look nr) }
+
+def runSpacket (size : Nat) (cfg : SilkSyms.Cfg) (pk : SilkSymsEnc.PacketIn) : String :=
+  let e := encodeAll (List.replicate size 0) size (SilkSymsEnc.packetOps cfg pk)
+  let tag := if e.error = 0 then "ok" else "err"
+  s!"{tag} D {stStr e} B {toHex e.buf} R ok"
+
 def handle : List String → String
+  | ["spacket", size, fs, nCh, nfpp, nb, flags, recs] =>
+    match parseNat size, parseNat fs, parseNat nCh, parseNat nfpp, parseNat nb, parseNat flags with
+    | some size, some fs, some nCh, some nfpp, some nb, some flags =>
+      match (if fs = 8 then some SilkSyms.Rate.nb else if fs = 12 then some .mb else if fs = 16 then some .wb else none),
+            parsePacket nCh nfpp flags (if recs = "-" then [] else recs.splitOn ";") with
+      | some rate, some pk => runSpacket size { rate, nCh, nfpp, nbSubfr := nb, lostFlag := 0 } pk
+      | _, _ => "bad-op"
+    | _, _, _, _, _, _ => "bad-op"
   | ["sframe", size, fill, fs, nb, lbrr, cc, prevSig, prevLag, ix, pulses] =>
     match parseNat size, parseNat fill, parseNat fs, parseNat nb, parseNat lbrr, parseNat cc with
     | some size, some fill, some fs, some nb, some lbrr, some cc =>
